@@ -2,6 +2,7 @@ package zygo
 
 import (
 	"bytes"
+	"encoding/json"
 	"fmt"
 	"github.com/shurcooL/go-goon"
 	"github.com/ugorji/go/codec"
@@ -100,20 +101,64 @@ func JsonToSexp(json []byte, env *Zlisp) (Sexp, error) {
 
 // sexp -> json
 func SexpToJson(exp Sexp) string {
+	return sexpToJson(exp, map[Sexp]bool{})
+}
+
+// jsonQuote renders s as a JSON string literal. (The language's own
+// printer uses Go escapes such as \x01, \a or \U000e0001 that JSON
+// does not know, so text assembled from it was rejected by JSON decoders,
+// including our own unjson and msgpack.)
+func jsonQuote(s string) string {
+	var buf bytes.Buffer
+	enc := json.NewEncoder(&buf)
+	enc.SetEscapeHTML(false)
+	if err := enc.Encode(s); err != nil {
+		panic(err)
+	}
+	return strings.TrimSuffix(buf.String(), "\n")
+}
+
+// jsonKeyText is the text of a hash key as it appears inside the
+// quotes of a JSON member name: the name of a symbol, the content of a
+// string (not its printed, already quoted form), else the printed form.
+func jsonKeyText(key Sexp) string {
+	switch k := key.(type) {
+	case *SexpSymbol:
+		return k.name
+	case *SexpStr:
+		return k.S
+	}
+	return key.SexpString(nil)
+}
+
+func sexpToJson(exp Sexp, busy map[Sexp]bool) string {
 	switch e := exp.(type) {
 	case *SexpHash:
-		return e.jsonHashHelper()
+		return e.jsonHashHelper(busy)
 	case *SexpArray:
-		return e.jsonArrayHelper()
+		return e.jsonArrayHelper(busy)
 	case *SexpSymbol:
-		return `"` + e.name + `"`
+		return jsonQuote(e.name)
+	case *SexpStr:
+		return jsonQuote(e.S)
+	case *SexpSentinel:
+		if e == SexpNull {
+			return "null"
+		}
+		return exp.SexpString(nil)
 	default:
 		return exp.SexpString(nil)
 	}
 }
 
-func (hash *SexpHash) jsonHashHelper() string {
-	str := fmt.Sprintf(`{"Atype":"%s", `, hash.TypeName)
+func (hash *SexpHash) jsonHashHelper(busy map[Sexp]bool) string {
+	if busy[hash] {
+		panic(fmt.Errorf("cannot encode a hash that contains itself"))
+	}
+	busy[hash] = true
+	defer delete(busy, hash)
+
+	str := fmt.Sprintf(`{"Atype":%s, `, jsonQuote(hash.TypeName))
 
 	ko := []string{}
 	n := len(hash.KeyOrder)
@@ -122,12 +167,12 @@ func (hash *SexpHash) jsonHashHelper() string {
 	}
 
 	for _, key := range hash.KeyOrder {
-		keyst := key.SexpString(nil)
+		keyst := jsonQuote(jsonKeyText(key))
 		ko = append(ko, keyst)
 		val, err := hash.HashGet(nil, key)
 		if err == nil {
-			str += `"` + keyst + `":`
-			str += string(SexpToJson(val)) + `, `
+			str += keyst + `:`
+			str += string(sexpToJson(val, busy)) + `, `
 		} else {
 			panic(err)
 		}
@@ -135,7 +180,7 @@ func (hash *SexpHash) jsonHashHelper() string {
 
 	str += `"zKeyOrder":[`
 	for _, key := range ko {
-		str += `"` + key + `", `
+		str += key + `, `
 	}
 	if n > 0 {
 		str = str[:len(str)-2]
@@ -146,14 +191,20 @@ func (hash *SexpHash) jsonHashHelper() string {
 	return str
 }
 
-func (arr *SexpArray) jsonArrayHelper() string {
+func (arr *SexpArray) jsonArrayHelper(busy map[Sexp]bool) string {
+	if busy[arr] {
+		panic(fmt.Errorf("cannot encode an array that contains itself"))
+	}
+	busy[arr] = true
+	defer delete(busy, arr)
+
 	if len(arr.Val) == 0 {
 		return "[]"
 	}
 
-	str := "[" + SexpToJson(arr.Val[0])
+	str := "[" + sexpToJson(arr.Val[0], busy)
 	for _, sexp := range arr.Val[1:] {
-		str += ", " + SexpToJson(sexp)
+		str += ", " + sexpToJson(sexp, busy)
 	}
 	return str + "]"
 }
